@@ -249,9 +249,21 @@ func (u *Universe) AddMethodTypes(meth []*Type, quick bool, seed int64, nSample 
 		}
 		return false
 	}
+	var hasC64 func(t *Type) bool
+	hasC64 = func(t *Type) bool {
+		if t.K == "basic" && t.B == "complex64" {
+			return true
+		}
+		for _, ch := range t.Children() {
+			if hasC64(ch) {
+				return true
+			}
+		}
+		return false
+	}
 	var core, rest []*Type
 	for _, t := range meth {
-		if isCore(t) {
+		if isCore(t) || hasC64(t) {
 			core = append(core, t)
 		} else {
 			rest = append(rest, t)
